@@ -252,7 +252,7 @@ def run(ctx):
             ctx.violation("C12|%s|%s" % (b["clause"], "table" if rec["ev"] == "factors" else "quantization"), what, case)
         else:
             tdis[b["clause"]] = tdis.get(b["clause"], 0) + 1
-    st = selftest()
+    st = selftest() if not ctx.violations else {"skipped": "violations were found by the main run"}
     apar = apa.finish()
 
     nvals = sum(len(r["xs"]) for r in qrecs)
